@@ -716,7 +716,7 @@ func checkC15(r *Run) []Violation {
 				if e.Type == evTableMap && e.Unit >= 0 {
 					if t := tableOfEvent(h, e); t != nil && !seen[t.ID] {
 						seen[t.ID] = true
-						wantCalls = append(wantCalls, t.DB+"."+t.Name)
+						wantCalls = append(wantCalls, t.DB+"\x00"+t.Name)
 					}
 				}
 			}
@@ -726,7 +726,7 @@ func checkC15(r *Run) []Violation {
 				vs = append(vs, Violation{"C15", "mapper-call", fmt.Sprintf("unexpected table lookup %d for %s.%s", k, mc.DB, mc.Name), i})
 				break
 			}
-			if mc.DB+"."+mc.Name != wantCalls[k] {
+			if mc.DB+"\x00"+mc.Name != wantCalls[k] {
 				vs = append(vs, Violation{"C15", "mapper-call", fmt.Sprintf("table lookup %d asked for %s.%s, the table map announced %s", k, mc.DB, mc.Name, wantCalls[k]), i})
 				break
 			}
